@@ -246,6 +246,10 @@ def run_program_case(ctx, prop, prog, text, info, allowed_switches=(), baseline=
       k = classify_order_sensitive_rejection(prog, res, prop, switches=dict(baseline or {}))
       if k:
         keys = [k]
+    if keys is None and res.status == 'mismatch':
+      k = classify_null_equality_under_injection(prog, res, prop, switches=dict(baseline or {}))
+      if k:
+        keys = [k]
     if keys is None and extra_classify is not None:
       k = extra_classify(prog, res)
       if k:
@@ -297,3 +301,38 @@ class Collector:
         if wit.get(f) is not None:
           lines.append('%s: %s' % (f, wit.get(f)))
     return bool(self.v), '\n'.join(lines)
+
+
+# ---------------------------------------------------------------------------------------------
+# recorded mechanism: `x == x` on a null value holds when the equality is a tautology after injection
+
+def with_noinject_everywhere(prog):
+  from vf.gen import transform
+  variant = transform.clone(prog)
+  already = {a[1] for a in variant['annotations'] if a[0] in ('NoInject', 'Ground', 'OrderBy', 'Limit')}
+  single = [p for p in variant['order'] if variant['preds'][p]['kind'] != 'inj' and p not in already
+            and sum(1 for r in variant['rules'] if r['pred'] == p) == 1]
+  variant['annotations'] = list(variant['annotations']) + [('NoInject', p) for p in single]
+  return variant
+
+
+def classify_null_equality_under_injection(prog, res, prop, switches=None):
+  """Mismatch explained by: the observed rows are the reference rows plus rows containing null, and with
+  injection switched off for every single-rule predicate the same program returns exactly the reference."""
+  if res.status != 'mismatch' or res.outcome is None or res.outcome.kind != 'rows':
+    return None
+  if not any(v is None for r in res.outcome.rows for v in r):
+    return None
+  variant = with_noinject_everywhere(prog)
+  text, _ = printer.program_text(variant)
+  rules, bad = pipeline.parse_program(text)
+  if bad:
+    return None
+  ev = evaluator.Evaluator(variant, switches=switches)
+  try:
+    r2 = check_predicate(variant, text, rules, res.pred, ev)
+  except evaluator.Unsupported:
+    return None
+  if r2.status == 'ok' and len(r2.outcome.rows) < len(res.outcome.rows):
+    return '%s/null-equality-under-injection' % prop
+  return None
